@@ -55,7 +55,8 @@ ArgOf(aid) ==
      [] aid = "Wbe"  -> WinArg(-4, 50, NoIdx, 2)                       \* window and band_end
      [] aid = "NONE" -> NoArg
 Entry0(op) == [op |-> op, aid |-> "", id |-> "", flag |-> FALSE, err |-> "", ret |-> << >>, at |-> "", class |-> "", nb |-> 0,
-               ident |-> FALSE, unchanged |-> FALSE, same |-> FALSE, restr |-> FALSE, doc |-> {}, wassel |-> FALSE, wann |-> FALSE, taint |-> FALSE]
+               ident |-> FALSE, unchanged |-> FALSE, same |-> FALSE, restr |-> FALSE, doc |-> {}, wassel |-> FALSE, wann |-> FALSE, taint |-> FALSE,
+               arg |-> NoArg, ids |-> << >>, must |-> ""]
 
 Preset(p) == CASE p = 1 -> <<"chk", "eig", "amn", "mmn", "bkvec">>
                [] p = 2 -> <<"eig", "amn", "spn", "uhu", "siu">>
@@ -65,10 +66,18 @@ Preset(p) == CASE p = 1 -> <<"chk", "eig", "amn", "mmn", "bkvec">>
 RECURSIVE Fill(_, _, _)
 Fill(c, ids, n) == IF n > Len(ids) THEN c ELSE Fill(SetFile(c, PoolKey(ids[n]), PoolObj(ids[n]), FALSE, FALSE).cont, ids, n + 1)
 CInit == /\ \E p \in PRESETS : /\ cont = Fill(EmptySel, Preset(p), 1)
-                              /\ hist = <<[Entry0("init") EXCEPT !.id = ToString(p)]>>
+                              /\ hist = <<[Entry0("init") EXCEPT !.id = ToString(p), !.ids = Preset(p)]>>
          /\ clab = Ident(NB0) /\ rets = << >>
          /\ par = << >> /\ obj = << >> /\ sel = << >> /\ out = << >> /\ sel2 = << >> /\ out2 = << >>
 
+Tainted(c) == HasFile(c, "chk") /\ HasFile(c, "eig") /\ c.files["chk"].attr["num_bands"] # NbNow(c)
+(* what the documentation demands of the call: "refuse", "accept", "refuse_wannierised" (the checkpoint holds a gauge), or
+   nothing ("info": the input is outside what the documentation decides) *)
+MustOf(c, a, again) == LET cl == ArgClass(c, a, again) IN
+   IF cl \in MustRefuse THEN "refuse"
+   ELSE IF cl \notin MustAccept THEN "info"
+   ELSE IF HasFile(c, "chk") /\ Wannierised(c.files["chk"]) THEN "refuse_wannierised"
+   ELSE IF Tainted(c) THEN "info" ELSE "accept"
 Len3OK == /\ DEEP /\ Len(hist) = 3
           /\ hist[2].op = "select" /\ hist[2].err = "" /\ hist[3].op = "select" /\ hist[3].err = ""
 Room == Len(hist) <= MAXLEN
@@ -90,7 +99,7 @@ DoSelect(aid, again) ==
                                     !.doc = IF HasFile(cont, "eig") /\ a.kind \in {"window", "none"} THEN DocWindowSet(cont.files["eig"], a) ELSE {},
                                     !.wassel = cont.selected,
                                     !.wann = (HasFile(cont, "chk") /\ Wannierised(cont.files["chk"])),
-                                    !.taint = (HasFile(cont, "chk") /\ HasFile(cont, "eig") /\ cont.files["chk"].attr["num_bands"] # NbNow(cont))])
+                                    !.taint = Tainted(cont), !.arg = a, !.must = MustOf(cont, a, again)])
 DoApplyWindow ==
    /\ Room
    /\ \E r \in {ApplyWindow(cont)} :
